@@ -722,14 +722,6 @@ Qed.
 Lemma types_accb_wf : types_accb = true -> vocab_wf.
 Proof. unfold types_accb. intros H. apply andb_prop in H. destruct H as [W _]. now apply vocab_wfb_sound. Qed.
 
-Lemma types_okb_accb : types_okb = true -> types_accb = true.
-Proof.
-  unfold types_okb, types_accb. intros H0. apply andb_prop in H0. destruct H0 as [W H]. rewrite W. cbn [andb].
-  unfold all_triples in *. apply forallb_forall. intros e He. rewrite forallb_forall in H. specialize (H e He).
-  apply forallb_forall. intros t Ht. rewrite forallb_forall in H. specialize (H t Ht).
-  apply forallb_forall. intros g Hg. rewrite forallb_forall in H. specialize (H g Hg). now apply triple_okb_accb.
-Qed.
-
 Section Real.
 Hypothesis Hacc : types_accb = true.
 Hypothesis Hbond : bonds_okb = true.
@@ -829,6 +821,7 @@ Qed.
 End Real.
 
 Section RealFixed.
+Hypothesis Hacc : types_accb = true.
 Hypothesis Hok : types_okb = true.
 Hypothesis Hbond : bonds_okb = true.
 
@@ -836,7 +829,7 @@ Theorem real_text_fixed_point wq m : wf_real_mol m = true ->
   (wq = true -> forallb (fun a => negb (neg_zero (a_q a))) (m_atoms m) = true) ->
   write RV wq (norm RV wq m) = write RV wq m.
 Proof.
-  intros Hwf Hq. pose proof (real_good_mol (types_okb_accb Hok) Hbond m Hwf) as G.
+  intros Hwf Hq. pose proof (real_good_mol Hacc Hbond m Hwf) as G.
   unfold wf_real_mol in Hwf. apply andb_prop in Hwf. destruct Hwf as [Hwf Hb]. apply andb_prop in Hwf.
   destruct Hwf as [_ Hd]. rewrite forallb_forall in Hd, Hb.
   apply text_fixed_point; [exact G| | |exact Hq].
